@@ -172,7 +172,7 @@ func before(a, b ssa.Instruction) bool {
 	return forwardReach(a.Block(), b.Block()) && !forwardReach(b.Block(), a.Block())
 }
 
-func runC12(p *Program, r *Report) {
+func runC12Shape(p *Program, r *Report) {
 	r.Trusted = []string{"go/types + go/ssa", "the URL guard's language is decided by C11 (same function object)", "strconv.ParseFloat accepts only Go float syntax (incl. hex floats, inf/nan, underscores only with base prefix)", "bytes.Buffer semantics"}
 	r.NotDecided = []string{"that the scanner's candidate boundaries coincide with the WHATWG srcset parser for every input", "idempotence of the sanitizer"}
 	r.Explain = "Decides necessary conditions: the two byte tables equal the WHATWG ASCII-whitespace set (plus ',' for descriptors); the loop tokenises with skip/take helpers over those tables in the WHATWG order; every byte written to the output is the separator constant (whitespace before its comma), the guarded URL through the comma-encoding helper, one space, or the guarded descriptor; all of these writes are dominated by len(url)!=0 ∧ URLguard(url) ∧ descriptorOK(metadata) on the same values; the empty-result constant; the shapes of the comma helper and the descriptor check."
